@@ -1,2 +1,8 @@
 #!/bin/sh
-exit 0
+# Build the gosym engine offline from files on disk (x/tools v0.29.0 from the module cache).
+set -e
+cd /verif/gosym
+export GOFLAGS=-mod=mod GOPROXY=off GOSUMDB=off GOTOOLCHAIN=local
+mkdir -p /verif/bin /verif/evidence /verif/replays
+go build -o /verif/bin/gosym .
+echo "gosym built"
